@@ -18,7 +18,9 @@ TIMEOUT = {'quick': 2400, 'thorough': 3500}
 RULE = ("random operation sequences (length <= 8, thorough <= 12) over "
         "{compute, misfit, gradient, jvec, jtvec, get_efield, get_hfield, "
         "clean(computed|keepresults|all), copy(what), to_dict/from_dict, "
-        "to_file/from_file (h5, npz, json; every what), model update + clean} "
+        "to_file/from_file (h5, npz, json; every what), model update + clean, "
+        "observed data replaced in place (other values, other pattern of "
+        "missing entries) + clean} "
         "on 8^3 isotropic and VTI problems, gridding 'same' and 'single' "
         "(fully specified gridding_opts), in memory and file_dir, 40 % with a "
         "relaxed tol_gradient (1e-4/1e-5 vs tol 1e-9); up to three "
@@ -49,6 +51,7 @@ class Live:
     def __init__(self, sim, ver, fdir):
         self.sim = sim
         self.ver = ver                 # model version
+        self.dver = 1                  # version of the observed data
         self.fdir = fdir
         self.jtvec_pending = None      # last jtvec result still cached?
         self.dirty = False             # sibling wrote into shared file_dir
@@ -67,6 +70,7 @@ class Env:
         self.case = case
         self.fresh_cache = {}
         self.models = {}
+        self.obs_versions = {1: obs}
         self.log = []
         nk = sum(ps['ms'][kk] is not None for kk in ('sigx', 'sigy', 'sigz'))
         shp = tuple(ps['shape'])
@@ -106,9 +110,36 @@ class Env:
             'properties': [1.0, 1.0, 1.0, 1.0],
             'mapping': 'Conductivity'}}
 
-    def new_sim(self, ver, fdir=None):
+    def obs_v(self, dver):
+        """Observed data, version ``dver``: same values up to 5 %, another
+        pattern of missing entries (none / a whole source-frequency pair /
+        random gaps)."""
+        if dver not in self.obs_versions:
+            rr = gen.rng(int(self.r.integers(2**31)), 'obs', dver)
+            base = self.obs.copy()
+            fill = simgen.observed_from(self.ps, rr, tol=1e-8) if not \
+                np.isfinite(base).all() else base
+            base[~np.isfinite(base)] = fill[~np.isfinite(base)]
+            base[~np.isfinite(base)] = np.nanmedian(np.abs(fill))
+            new = base*(1 + 0.05*rr.standard_normal(base.shape))
+            kind = gen.choice(rr, ['full', 'blank-pair', 'gaps'])
+            if kind == 'blank-pair' and new.shape[0]*new.shape[2] > 1:
+                new[int(rr.integers(new.shape[0])), :,
+                    int(rr.integers(new.shape[2]))] = np.nan + 1j*np.nan
+            elif kind == 'gaps' and new.size > 1:
+                m = rr.random(new.shape) < 0.3
+                if not m.all():
+                    new[m] = np.nan + 1j*np.nan
+            self.obs_versions[dver] = new
+        return self.obs_versions[dver]
+
+    def new_sim(self, ver, fdir=None, dver=1):
         grid, model = self.model(ver)
+        # (noise parameters always derive from version 1, as they do for an
+        # object whose data are replaced in place later)
         sv = simgen.build_survey(self.ps, data=self.obs.copy())
+        if dver > 1:
+            sv.data.observed[...] = self.obs_v(dver)
         kw = self.gkw(grid)
         if fdir:
             kw['file_dir'] = fdir
@@ -116,10 +147,10 @@ class Env:
             kw['solver_opts'] = {'tol_gradient': self.tolg}
         return simgen.simulation(sv, model, tol=1e-9, **kw)
 
-    def fresh(self, ver, what):
-        key = (ver, what)
+    def fresh(self, ver, what, dver=1):
+        key = (ver, dver, what)
         if key not in self.fresh_cache:
-            sim = self.new_sim(ver)
+            sim = self.new_sim(ver, dver=dver)
             if what == 'basic':
                 sim.compute()
                 syn = np.array(sim.data.synthetic.data)
@@ -212,7 +243,7 @@ def run_sequence(rec, seed, k, i, maxlen):
 
 OPS = ['compute', 'misfit', 'gradient', 'jvec', 'jtvec', 'get_efield',
        'get_hfield', 'clean', 'clean', 'copy', 'dict', 'file', 'file',
-       'model_update']
+       'model_update', 'data_update']
 
 
 def violation(env, L, op, msg, exc=None):
@@ -239,7 +270,7 @@ def do_op(env, lives, L, step, force=None):
     name = op
     writes = False
     try:
-        fr = env.fresh(L.ver, 'basic')
+        fr = env.fresh(L.ver, 'basic', L.dver)
         if not fr['ok']:
             rec.event('skipped_solver_not_converged')
             return False
@@ -278,7 +309,7 @@ def do_op(env, lives, L, step, force=None):
         elif op == 'jvec':
             val = np.array(sim.jvec(env.v))
             writes = True
-            ok, d = close(val, env.fresh(L.ver, 'jvec'), env.rtg)
+            ok, d = close(val, env.fresh(L.ver, 'jvec', L.dver), env.rtg)
             rec.event('jvec_observations')
             if not ok:
                 violation(env, L, op, f'jvec differs from fresh simulation '
@@ -287,7 +318,7 @@ def do_op(env, lives, L, step, force=None):
         elif op == 'jtvec':
             val = np.array(sim.jtvec(env.w))
             writes = True
-            ok, d = close(val, env.fresh(L.ver, 'jtvec'), env.rtg)
+            ok, d = close(val, env.fresh(L.ver, 'jtvec', L.dver), env.rtg)
             rec.event('jtvec_observations')
             L.jtvec_pending = val
             if not ok:
@@ -332,6 +363,16 @@ def do_op(env, lives, L, step, force=None):
             sim.to_file(path, what=what, verb=0)
             new = emg3d.Simulation.from_file(path, verb=0)
             add_live(env, lives, L, new, what)
+        elif op == 'data_update':
+            # new observations written in place into the survey of this
+            # object, then clean: results must be those of the new data
+            what = gen.choice(r, ['computed', 'all'])
+            name = f'data_update+clean:{what}'
+            L.dver += 1
+            sim.survey.data.observed[...] = env.obs_v(L.dver)
+            sim.clean(what)
+            writes = True
+            L.jtvec_pending = None
         elif op == 'model_update':
             what = gen.choice(r, ['computed', 'all'])
             name = f'model_update+clean:{what}'
@@ -353,7 +394,7 @@ def do_op(env, lives, L, step, force=None):
             if o is not L and o.fdir == L.fdir:
                 o.dirty = True
     # passive observation: whatever synthetic data exist must be the fresh ones
-    fr = env.fresh(L.ver, 'basic')
+    fr = env.fresh(L.ver, 'basic', L.dver)
     for o in [L] + ([lives[-1]] if lives[-1] is not L else []):
         if o.retired:
             continue
@@ -363,7 +404,7 @@ def do_op(env, lives, L, step, force=None):
             violation(env, o, name, f'data.synthetic not accessible: {e}',
                       exc=e)
             return False
-        fro = env.fresh(o.ver, 'basic')
+        fro = env.fresh(o.ver, 'basic', o.dver)
         fin = np.isfinite(syn)
         rec.event('synthetic_observations')
         if fin.any():
@@ -390,6 +431,7 @@ def do_op(env, lives, L, step, force=None):
 
 def add_live(env, lives, L, new, what):
     n = Live(new, L.ver, L.fdir if new.file_dir else None)
+    n.dver = L.dver
     n.prev = L.prev
     if what != 'plain' and L.jtvec_pending is not None:
         n.jtvec_pending = L.jtvec_pending
